@@ -70,7 +70,7 @@ fn gen_mem_kind(g: &mut Sm, which: u64) -> LKind {
         }
         3 => LKind::Cms { w: *g.pick(&[8usize, 16, 100, 1000, 4096]), d: g.range(1, 8) as usize, ctr: g.below(5) as u8 + if g.chance(1, 2) { 0 } else { 0 } },
         4 => LKind::Hll { b: g.range(4, 18) as usize },
-        5 => LKind::Digest { scale: g.below(4) as u8, delta: *g.pick(&[1.5, 5.0, 20.0, 100.0, 500.0]), backlog: *g.pick(&[0usize, 1, 10, 100, 1000]), wscale: if g.chance(1, 5) { *g.pick(&[1e-320, 1e-310, 1e300, 1e-200]) } else { 1.0 } },
+        5 => LKind::Digest { scale: g.below(4) as u8, delta: *g.pick(&[1.5, 5.0, 20.0, 100.0, 500.0]), backlog: *g.pick(&[0usize, 1, 10, 100, 1000]), wscale: if g.chance(1, 5) { *g.pick(&[1e-320, 1e-310, 1e250, 1e-200]) } else { 1.0 } },
         6 => LKind::Reservoir { k: *g.pick(&[1usize, 2, 10, 100, 1000]) },
         7 => LKind::Lossy { width: *g.pick(&[1usize, 2, 10, 100, 1000]) },
         _ => LKind::Heap { k: *g.pick(&[1usize, 3, 10, 100]), w: *g.pick(&[1usize, 16, 256]), d: g.range(1, 4) as usize },
